@@ -1111,9 +1111,20 @@ func (g *G) varExpr(depth int, call bool) *Node {
 	case k == 4 && depth < g.O.MaxDepth && call:
 		// static call A::b()
 		cls := g.classRef(depth)
-		m, _ := g.memberNameFor(true)
 		as, ps := g.args(depth)
-		base = &Node{Kind: "ExprStaticCall", Kids: []Kid{one("Class", cls), one("Call", m), list("Args", as)}, Parts: parts(cls, t("::"), m, ps), Prec: 100}
+		switch sk := g.R.Intn(8); {
+		case sk == 0 && !g.O.Formatter:
+			// A::{expr}()
+			e := g.exprTop(depth + 1)
+			base = &Node{Kind: "ExprStaticCall", Kids: []Kid{one("Class", cls), one("Call", e), list("Args", as)}, Parts: parts(cls, t("::"), t("{"), e, t("}"), ps), Prec: 100}
+		case sk == 1:
+			// A::$m()
+			e := g.simpleVarPlain()
+			base = &Node{Kind: "ExprStaticCall", Kids: []Kid{one("Class", cls), one("Call", e), list("Args", as)}, Parts: parts(cls, t("::"), e, ps), Prec: 100}
+		default:
+			m, _ := g.memberNameFor(true)
+			base = &Node{Kind: "ExprStaticCall", Kids: []Kid{one("Class", cls), one("Call", m), list("Args", as)}, Parts: parts(cls, t("::"), m, ps), Prec: 100}
+		}
 	case k == 5 && depth < g.O.MaxDepth && call && g.dollarFirst == 0:
 		// (new X(args)) as the base of a chain
 		nw := g.newExpr(depth + 1)
